@@ -21,16 +21,18 @@ Definition Alen {A} (l : list A) : arg := AZ (Z.of_nat (length l)).
 
 (* a parsed element as the harness prints an asn1struct.Raw:
    (class tag compound #content-if-primitive len(Bytes) len(FullBytes)-len(Bytes) (children)) *)
-Fixpoint raw_arg (t : tlv) : arg :=
+Fixpoint raw_enc (t : tlv) : arg * bytes :=        (* the observation and the encoding, in one pass *)
   match t with
   | Prim c tag content =>
-      AL [AN c; AN tag; AZ 0; AB content; Alen content;
-          Alen (enc_hdr c false tag (N.of_nat (length content))); AL []]
+      let h := enc_hdr c false tag (N.of_nat (length content)) in
+      (AL [AN c; AN tag; AZ 0; AB content; Alen content; Alen h; AL []], h ++ content)
   | Cons c tag ch =>
-      let body := flat_map encode_tlv ch in
-      AL [AN c; AN tag; AZ 1; AB []; Alen body;
-          Alen (enc_hdr c true tag (N.of_nat (length body))); AL (map raw_arg ch)]
+      let subs := map raw_enc ch in
+      let body := flat_map snd subs in
+      let h := enc_hdr c true tag (N.of_nat (length body)) in
+      (AL [AN c; AN tag; AZ 1; AB []; Alen body; Alen h; AL (map fst subs)], h ++ body)
   end.
+Definition raw_arg (t : tlv) : arg := fst (raw_enc t).
 
 Definition obs_ok (a : arg) : arg := AL [AZ 0; a].
 
